@@ -97,7 +97,9 @@ Proof.
 Qed.
 
 (* ------------------------------------------------------------------ refutations (witnesses replayed on the real code) *)
-Definition E_id : env := mkEnv (fun _ => false) (fun _ => mk_conv true) (fun _ => 1000%N) (fun _ _ => None).
+Definition E_id : env := mkEnv (fun _ => false) (fun _ => mk_conv true) (fun _ => 1000%N) (fun _ _ => None) false.
+(* the same providers, code as it was before /repo commits 029c8f6 and ccb41ee *)
+Definition E_old : env := mkEnv (fun _ => false) (fun _ => mk_conv true) (fun _ => 1000%N) (fun _ _ => None) true.
 Definition w_o1 : str := [111;49]%N.
 Definition w_o2 : str := [111;50]%N.
 Definition w_pb : str := [47;98]%N.
@@ -123,8 +125,21 @@ Definition w_changed : list (op * list titem) :=
 
 Definition changeset_exact_full : Prop :=
   forall E ops s, run_ops E init_state ops = Ok s -> cs_exact s.
+(* about the model VARIANT of the old code (legacy E = true) *)
+Definition legacy_setters_terminate_full : Prop :=
+  forall E ops, legacy E = true -> run_ops E init_state ops <> Err ERecursion.
+(* about the code as it is (legacy E = false) *)
 Definition setters_terminate_full : Prop :=
-  forall E ops, run_ops E init_state ops <> Err ERecursion.
+  forall E ops, legacy E = false -> run_ops E init_state ops <> Err ERecursion.
+Definition w_pa : str := [47;97]%N.
+Definition w_pab : str := [47;97;47;98]%N.
+Definition w_pabx : str := [47;97;47;98;47;120]%N.
+(* update(LOCAL, DIRECTORY, 'o2', '/a/b'); update(LOCAL, DIRECTORY, 'o1', '/a'); update(LOCAL, DIRECTORY, 'o1', '/a/b/x'):
+   folder /a lands below its own child folder /a/b; each of the two is then a child of the other's move *)
+Definition w_kids2 (n : nat) : list (op * list titem) :=
+  [ (OUpdate false (Some Dir) (Some w_o2) (Some w_pab) None (Some true) None, [TSwap false]);
+    (OUpdate false (Some Dir) (Some w_o1) (Some w_pa) None (Some true) None, [TSwap false]);
+    (OUpdate false (Some Dir) (Some w_o1) (Some w_pabx) None (Some true) None, repeat (TOrder [0; 1]) n) ].
 
 Lemma changeset_exact_refuted : ~ changeset_exact_full.
 Proof.
@@ -133,10 +148,17 @@ Proof.
   specialize (H _ _ _ R). vm_compute in R. injection R as <-.
   specialize (H 0 _ eq_refl eq_refl). destruct H as [H _]. specialize (H eq_refl). vm_compute in H. discriminate.
 Qed.
+Lemma legacy_update_kids_terminates_refuted : ~ legacy_setters_terminate_full.
+Proof. intros H. apply (H E_old (w_kids 20)); [reflexivity|]. vm_compute. reflexivity. Qed.
+Lemma legacy_changed_setter_terminates_refuted : ~ legacy_setters_terminate_full.
+Proof. intros H. apply (H E_old w_changed); [reflexivity|]. vm_compute. reflexivity. Qed.
+(* the two old witnesses run to completion on the model of the current code *)
+Lemma fixed_witnesses_terminate :
+  (exists s, run_ops E_id init_state (w_kids 1) = Ok s) /\ (exists s, run_ops E_id init_state w_changed = Ok s).
+Proof. split; eexists; vm_compute; reflexivity. Qed.
+(* ... but two nested folders still make _update_kids recurse without bound *)
 Lemma update_kids_terminates_refuted : ~ setters_terminate_full.
-Proof. intros H. apply (H E_id (w_kids 20)). vm_compute. reflexivity. Qed.
-Lemma changed_setter_terminates_refuted : ~ setters_terminate_full.
-Proof. intros H. apply (H E_id w_changed). vm_compute. reflexivity. Qed.
+Proof. intros H. apply (H E_id (w_kids2 40)); [reflexivity|]. vm_compute. reflexivity. Qed.
 
 (* ------------------------------------------------------------------ the part of the state Idx talks about *)
 Definition ekey (en : entry) := (s_oid (e_l en), s_path (e_l en), s_oid (e_r en), s_path (e_r en)).
@@ -218,7 +240,11 @@ Proof.
     { destruct ((tchg v && tstr (s_oid (gs x sd)) || tchg (s_chg (gs x (negb sd))) && tstr (s_oid (gs x (negb sd))))%bool).
       - injection E1 as <-. split; reflexivity.
       - destruct (tchg (s_chg (gs x (negb sd))) && negb (tstr (s_oid (gs x (negb sd)))))%bool.
-        + apply IH in E1; [|reflexivity]. exact E1.
+        + destruct (legacy E).
+          * apply IH in E1; [|reflexivity]. exact E1.
+          * injection E1 as <-. split.
+            -- rewrite iview_raw_side; [reflexivity|intros y; split; reflexivity].
+            -- unfold raw_side. simpl. destruct (nth_error (ents s) e); reflexivity.
         + injection E1 as <-. split; reflexivity. }
     destruct Hx as [Hx1 Hx2]. injection H as <-. destruct fin.
     + split.
@@ -979,4 +1005,27 @@ Lemma idx_partial : forall E ops s s',
 Proof.
   intros E ops s s' Hc HJ H. pose proof (idx_run_partial E ops s s' Hc HJ H) as [Hf Hs].
   split; [exact Hf|]. split; [exact Hs|]. exact (idx_found_unique s' Hf).
+Qed.
+
+(* ------------------------------------------------------------------ termination facts about the code as it is *)
+(* ccb41ee: the write of `changed` no longer re-enters itself: one unit of fuel is enough *)
+Lemma set_changed_total E f fin e sd v s :
+  legacy E = false -> e < length (ents s) -> exists s', exec E (S f) (CChg fin e sd v) s = Ok s'.
+Proof.
+  intros Hl He. simpl. unfold get_ent. destruct (nth_error (ents s) e) as [en|] eqn:En.
+  2:{ apply nth_error_None in En. lia. }
+  simpl. rewrite Hl.
+  destruct ((tchg v && tstr (s_oid (gs en sd)) || tchg (s_chg (gs en (negb sd))) && tstr (s_oid (gs en (negb sd))))%bool);
+    [simpl; eexists; reflexivity|].
+  destruct (tchg (s_chg (gs en (negb sd))) && negb (tstr (s_oid (gs en (negb sd)))))%bool; simpl; eexists; reflexivity.
+Qed.
+(* 029c8f6: the renamed folder is not treated as its own child *)
+Lemma kid_step_self E rec e sd pp p s en :
+  legacy E = false -> get_ent s e = Ok en -> kid_step E rec e sd pp p e s = Ok s.
+Proof.
+  intros Hl He. unfold kid_step. rewrite He. simpl.
+  destruct (s_path (gs en sd)) as [sp|]; [|reflexivity].
+  destruct sp as [|c sp]; [reflexivity|]. simpl.
+  destruct (is_subpath (cvs E sd) pp (c :: sp) true) as [|[|c0 r0]]; try reflexivity.
+  rewrite Hl, Nat.eqb_refl. reflexivity.
 Qed.
